@@ -165,6 +165,17 @@ def main():
         cases = mod.replay_cases(a.replay) if hasattr(mod, 'replay_cases') else default_replay(a.replay)
     else:
         cases = mod.cases(rng, tier)
+        # corpus first: minimised past failures (modules with their own CORPUS handling load them themselves)
+        cdir = os.path.join(C.VERIF, 'corpus', prop)
+        if not hasattr(mod, 'CORPUS') and os.path.isdir(cdir):
+            pre = []
+            for fn in sorted(os.listdir(cdir)):
+                if fn.endswith('.case'):
+                    for k, cc in enumerate(default_replay(os.path.join(cdir, fn))):
+                        cc.id = 'corpus-%s-%s' % (fn[:-5], cc.id)
+                        cc.meta = dict(nontrivial=True, tags=dict(stream='corpus'), corpus=True)
+                        pre.append(cc)
+            cases = pre + cases
     C.log('%d cases' % len(cases))
     summary = mod.run(cases, tier, rng) if hasattr(mod, 'run') else default_run(mod, cases, tier)
     corr_obl = summary['corr_obligations']       # dict name -> ok(bool)
